@@ -119,6 +119,13 @@ def obligations():
                    and a[5][:1] == ("loopvar",) and a[5] not in (g[2][0][2][0], g[2][1][2][0]) and a[6] == _attr(SELF, "max_clusters")
                    and a[7] == g[2][1][2][0] and a[8] == _attr(SELF, "min_samples_leaf"))      # a[7]: the leaf counter of the loop guard
         ob("find_best_split(kernel(X, y), X, array(queue), Y, Z, n_clusters, max_clusters, n_leaves, min_samples_leaf, features)", ok_args)
+        # the candidate features handed to the search are exactly the drawn subset (cast to intp), nothing filtered out of it
+        feat = a[9] if len(a) == 10 else None
+        drawn = ("callres", chs[0][1], chs[0][2], chs[0][3], chs[0][4]) if chs else None
+        okf = (drawn is not None and isinstance(feat, tuple) and feat[:1] == ("callres",) and feat[2].endswith(".astype")
+               and [e for e in calls if e[1] == feat[1]][0][6] == ("attr", drawn, "astype"))
+        ob("the candidate features of the search are exactly the drawn subset (every drawn feature is scanned)", bool(okc and okf),
+           {"features argument": fx.show(feat)[:200] if feat is not None else None})
         if not ok_args:
             continue
         Yt, Zt, nlv, ncv = a[3], a[4], a[7], a[5]
@@ -240,7 +247,8 @@ def obligations():
         ob("leaves_ = Z.argmax(0)", bool(lv) and [e for e in calls if e[1] == lv[-1][3][1]][0][6] == ("attr", Zt, "argmax"))
         tr = [e for e in ev if e[0] == "store" and e[2] == "tree_"]
         ob("a fresh Tree() is created at each fit", len(tr) == 1 and tr[0][3][:1] == ("callres",) and tr[0][3][2] == "Tree" and not tr[0][4])
-    return list(agg.values()) + tree_depth_obligations()
+    from .forwarding import kauri_kernel_obligations
+    return list(agg.values()) + tree_depth_obligations() + [o for o in kauri_kernel_obligations() if "stateless" in o.name]
 
 
 def tree_depth_obligations():
